@@ -172,8 +172,53 @@ def _other_environment():
         _OTHER.append(env)
 
 
+def _rebound_env(attrs):
+    """the documented way to narrow an environment to the RFC's functions: a subclass whose setup_function_extensions()
+    ASSIGNS a registry of its own (same five standard functions, fresh instances, under the standard names)"""
+    from jsonpath import function_extensions as FE
+
+    def setup(self):
+        self.function_extensions = {"length": FE.Length(), "count": FE.Count(), "match": FE.Match(), "search": FE.Search(), "value": FE.Value()}
+    return type("RfcOnly", (jsonpath.JSONPathEnvironment,), dict(attrs, setup_function_extensions=setup))()
+
+
+def _uses_only_std_functions(text):
+    import re as _re
+    return all(n in ("length", "count", "match", "search", "value") for n in _re.findall(r"([a-z][a-z_0-9]*)\(", text))
+
+
 def impl(case):
     _other_environment()
+    out = _impl(case)
+    if _uses_only_std_functions(out["text"]):
+        # the acceptance gate is the same in an environment that rebinds its registry / replaces it after construction
+        a = {}
+        if case["lo"] is not None:
+            a["min_int_index"] = case["lo"]
+        if case["hi"] is not None:
+            a["max_int_index"] = case["hi"]
+        outs = []
+        for mk in (lambda: _rebound_env(a), lambda: _replaced_after(a)):
+            try:
+                c = mk().compile(out["text"])
+                outs.append(["ok", Q.canon_ast(Q.dump_query(c))])
+            except Exception as e:  # noqa: BLE001
+                outs.append(["err", exc_name(e)])
+        out["rebound_env_same"] = all(o == out["compile"] for o in outs)
+        if not out["rebound_env_same"]:
+            out["rebound_env_counterexample"] = outs
+    return out
+
+
+def _replaced_after(attrs):
+    from jsonpath import function_extensions as FE
+    env = (type("E2", (jsonpath.JSONPathEnvironment,), attrs) if attrs else jsonpath.JSONPathEnvironment)()
+    env.function_extensions = {"length": FE.Length(), "count": FE.Count(), "match": FE.Match(), "search": FE.Search(), "value": FE.Value(),
+                               "size": FE.Length(), "like": FE.Match()}
+    return env
+
+
+def _impl(case):
     attrs = {}
     if case["lo"] is not None:
         attrs["min_int_index"] = case["lo"]
@@ -189,6 +234,15 @@ def impl(case):
 
 
 def decode(sx, case):
+    d = _decode(sx, case)
+    if _uses_only_std_functions(text_of(case)):
+        d["model"]["rebound_env_same"] = True
+        if d["spec"]:
+            d["spec"] = dict(d["spec"], rebound_env_same=True)
+    return d
+
+
+def _decode(sx, case):
     _, comp, std, gate = sx
     model = {"text": text_of(case)}
     if comp[0] == "ok":
@@ -210,6 +264,13 @@ def decode(sx, case):
 
 
 def project(case, res, dec=None):
+    p = _project(case, res, dec)
+    if "rebound_env_same" in res:
+        p["rebound_env_same"] = res["rebound_env_same"]
+    return p
+
+
+def _project(case, res, dec=None):
     c = res["compile"]
     if c[0] == "ok":
         return {"accepted": True}
